@@ -16,6 +16,10 @@ PROP = dict(
                        "every accepted seed delivered, once per accepted insert/feedback",
                        "rejections (unknown feedback, repeated finish) exact; a finished accepted seed has one successful finish",
                        "closed reactor accepts nothing"]),
+        dict(driver="reactorcfg", binary="zreactor", quick=90, thorough=600, shard=300, noshrink=True,
+             monitors=["input channel has room for every token holder (cap(input) >= token count)",
+                       "cap(tokenPool) = token count",
+                       "filled reactor: all n inserts return with the output not drained, feedback of a received seed returns nil"]),
     ],
     partial="Linearizability of the fine-grained transition system with respect to its own call-granularity runs is checked on "
             "recorded concurrent histories (Wing-Gong search evaluated in Coq), not proved. The Go memory model is not modelled: "
